@@ -121,5 +121,6 @@ def run(ctx):
                 "`current_store` equals this store's address (add_node, free_slot).")
     nsb = efreelist.check_store_binding(ctx, F)
     ctx.floor("E-FREELIST.binding", "current_store tests", nsb, 2)
+    ewho.check_gate_initial(ctx, F)
     ctx.not_decided = ("exactness of counts over histories; the unsafe internals of the managers; "
                        "capacity restoration after gc")
